@@ -74,6 +74,29 @@ func enumInput(class string, valid []byte, k int) []byte {
 	return nil
 }
 
+// byte window (offset, width) modified by the k-th input of an enumerative class
+func enumWindow(class string, n int, k int) (int, int) {
+	switch class {
+	case "trunc":
+		return k, 1
+	case "inflate":
+		if k < n*len(inflate1) {
+			return k / len(inflate1), 1
+		}
+		k -= n * len(inflate1)
+		if n >= 2 {
+			if k < (n-1)*len(inflate2) {
+				return k / len(inflate2), 2
+			}
+			k -= (n - 1) * len(inflate2)
+		}
+		return k / len(inflate4), 4
+	case "tagswap":
+		return k / len(edfTags), 1
+	}
+	return 0, 0
+}
+
 // random classes -----------------------------------------------------------------
 
 func pick(rng *rand.Rand, corpus []citem) []byte {
